@@ -55,3 +55,11 @@ Theorem C20_factory_consistent :
                     | None => false end) driver_names = true.
 Proof. exact factory_consistent. Qed.
 Print Assumptions C20_factory_consistent.
+
+(* the premise of abstracting from time in this property's model: the code it models waits, polls and gives up
+   exactly where the model says (primitive codes in Proofs/W_*.v); re-extracted from the source on every run *)
+Require Import GV.Gen.Consts GV.Proofs.W_authority GV.Proofs.W_net GV.Proofs.W_can.
+Theorem C20_time_abstraction : waits_authority = (@nil Z) /\ waits_net = (@nil Z) /\ waits_can = (@nil Z).
+Proof. exact (conj w_authority (conj w_net w_can)). Qed.
+Check C20_time_abstraction : waits_authority = (@nil Z) /\ waits_net = (@nil Z) /\ waits_can = (@nil Z).
+Print Assumptions C20_time_abstraction.
